@@ -244,13 +244,18 @@ def _compare_to_previous_run_info(
     except Exception as e:  # noqa: BLE001
         msg = f"Could not load previous run info: {e}, cannot use `cleanup=False`."
         raise ValueError(msg) from None
-    if internal_shapes != old.internal_shapes:
+    # The previous run recorded the internal shapes including those declared on the `PipeFunc`s
+    new_internal_shapes = _construct_internal_shapes(
+        dict(internal_shapes) if internal_shapes is not None else None,
+        pipeline,
+    )
+    if new_internal_shapes != old.internal_shapes:
         msg = "Internal shapes do not match previous run, cannot use `cleanup=False`."
         raise ValueError(msg)
     if pipeline.mapspecs_as_strings != old.mapspecs_as_strings:
         msg = "`MapSpec`s do not match previous run, cannot use `cleanup=False`."
         raise ValueError(msg)
-    shapes, _masks = map_shapes(pipeline, inputs, internal_shapes)
+    shapes, _masks = map_shapes(pipeline, inputs, new_internal_shapes)
     if shapes != old.shapes:
         msg = "Shapes do not match previous run, cannot use `cleanup=False`."
         raise ValueError(msg)
